@@ -205,7 +205,68 @@ def translate(repo: Path) -> str:
     return PRELUDE + "\n".join([t_is_disjoint(tri), t_multi_gcd(du), t_diff(du)]) + "\n"
 
 
+def t_rt_compare(tree):
+    """_make_right_triangle_slice: the `if` of the comprehension compares the wanted lag (loop variable of
+    the first generator) with <edge cell>.dev_lag(unit)."""
+    f = find_func(tree, "_make_right_triangle_slice")
+    body = strip_doc(f.body)
+    need(len(body) == 2 and isinstance(body[1], ast.Return) and isinstance(body[1].value, ast.ListComp),
+         "_make_right_triangle_slice: expected `if dev_lags is None: ...` and a returned list comprehension")
+    lc = body[1].value
+    need(len(lc.generators) == 2 and not lc.generators[0].ifs and len(lc.generators[1].ifs) == 1
+         and isinstance(lc.generators[0].target, ast.Name) and isinstance(lc.generators[1].target, ast.Name),
+         "_make_right_triangle_slice: two generators (lag, edge cell) with one condition expected")
+    lag, cell = lc.generators[0].target.id, lc.generators[1].target.id
+    it = lc.generators[1].iter
+    need(isinstance(it, ast.Attribute) and it.attr == "right_edge", "_make_right_triangle_slice: cells must come from .right_edge")
+    c = lc.generators[1].ifs[0]
+    need(isinstance(c, ast.Compare) and len(c.ops) == 1 and type(c.ops[0]) in OPS, "comparison expected")
+
+    def side(n):
+        if isinstance(n, ast.Name) and n.id == lag:
+            return "WantedLag"
+        if isinstance(n, ast.Call) and isinstance(n.func, ast.Attribute) and n.func.attr == "dev_lag" \
+                and isinstance(n.func.value, ast.Name) and n.func.value.id == cell:
+            return "EdgeLag"
+        raise Unsupported("_make_right_triangle_slice: operand is neither the wanted lag nor <cell>.dev_lag(unit)")
+
+    return f"Definition rt_cmp : lagcmp_desc := mkLagCmp {side(c.left)} {OPS[type(c.ops[0])]} {side(c.comparators[0])}."
+
+
+def t_right_edge_index(tree):
+    """Triangle.right_edge appends row[<index>] for every slice period row."""
+    f = find_func(tree, "right_edge", "Triangle")
+    found = []
+    for n in ast.walk(f):
+        if isinstance(n, ast.Call) and isinstance(n.func, ast.Attribute) and n.func.attr == "append" and len(n.args) == 1:
+            a = n.args[0]
+            need(isinstance(a, ast.Subscript) and isinstance(a.value, ast.Name), "right_edge: append(row[i]) expected")
+            idx = a.slice
+            if isinstance(idx, ast.UnaryOp) and isinstance(idx.op, ast.USub) and isinstance(idx.operand, ast.Constant):
+                found.append(-idx.operand.value)
+            elif isinstance(idx, ast.Constant) and isinstance(idx.value, int):
+                found.append(idx.value)
+            else:
+                raise Unsupported("right_edge: constant index expected")
+    need(len(found) == 1, "right_edge: exactly one append(row[i]) expected")
+    return f"Definition edge_index : Z := {'(' + str(found[0]) + ')' if found[0] < 0 else found[0]}."
+
+
+PRELUDE15 = """(* GENERATED by translate/t_acc.py from bermuda/utils/extend.py and bermuda/triangle.py -- do not edit *)
+From Coq Require Import ZArith List.
+From Bermuda Require Import Model.Accessors Model.Extend.
+Local Open Scope Z_scope.
+"""
+
+
+def translate_c15(repo: Path) -> str:
+    ext = ast.parse((Path(repo) / "bermuda" / "utils" / "extend.py").read_text())
+    tri = ast.parse((Path(repo) / "bermuda" / "triangle.py").read_text())
+    return PRELUDE15 + "\n".join([t_rt_compare(ext), t_right_edge_index(tri)]) + "\n"
+
+
 if __name__ == "__main__":
     import sys
 
     print(translate(Path(sys.argv[1] if len(sys.argv) > 1 else "/repo")))
+    print(translate_c15(Path(sys.argv[1] if len(sys.argv) > 1 else "/repo")))
